@@ -1279,4 +1279,89 @@ theorem purge_spec : Holds (purge : Act κ ν Unit) (fun _ => True) (fun g _ g' 
 
 end Arc
 
+
+/-! ### the operation alphabet of the composite caches -/
+
+/-- the operations (the `Bool`/payload results are irrelevant here) -/
+inductive COp (κ ν : Type)
+  | slruPut (k : κ) (v : ν) | slruGet (k : κ) | slruPutProtected (k : κ) (v : ν) | slruRemove (k : κ) | slruPurge
+  | twoqPut (q : TwoQ.Params) (k : κ) (v : ν) | twoqGet (k : κ) | twoqRemove (k : κ) | twoqPurge
+  | arcPut (size : Nat) (k : κ) (v : ν) | arcGet (k : κ) | arcRemove (k : κ) | arcPurge
+  -- public `RawLRU` calls on one list (accessors of the composites, the window of W-TinyLFU)
+  | rawPut (c : Nat) (k : κ) (v : ν) | rawGet (c : Nat) (k : κ) | rawRemove (c : Nat) (k : κ) | rawRemoveLru (c : Nat)
+  | rawPurge (c : Nat) | lookup (c : Nat) (k : κ)
+
+def COp.run : COp κ ν → Act κ ν Unit
+  | .slruPut k v => do let _ ← Slru.put k v
+  | .slruGet k => do let _ ← Slru.get k
+  | .slruPutProtected k v => do let _ ← Slru.putProtected k v
+  | .slruRemove k => do let _ ← Slru.remove k
+  | .slruPurge => Slru.purge
+  | .twoqPut q k v => do let _ ← TwoQ.put q k v
+  | .twoqGet k => do let _ ← TwoQ.get k
+  | .twoqRemove k => do let _ ← TwoQ.remove k
+  | .twoqPurge => TwoQ.purge
+  | .arcPut size k v => do let _ ← Arc.put size k v
+  | .arcGet k => do let _ ← Arc.get k
+  | .arcRemove k => do let _ ← Arc.remove k
+  | .arcPurge => Arc.purge
+  | .rawPut c k v => do let _ ← M.AG.rawPut c k v
+  | .rawGet c k => do let _ ← M.AG.rawGet c k
+  | .rawRemove c k => do let _ ← M.AG.rawRemove c k
+  | .rawRemoveLru c => do let _ ← M.AG.rawRemoveLru c
+  | .rawPurge c => M.AG.rawPurge c
+  | .lookup c k => do let _ ← M.AG.mapGet c k
+
+theorem voided {α : Type} {m : Act κ ν α} (h : Holds m (fun _ => True) (fun g _ g' => Std g g')) :
+    Holds (do let _ ← m : Act κ ν Unit) (fun _ => True) (fun g _ g' => Std g g') :=
+  Holds.intro fun g hI _ => Ok.bind (h.ok hI trivial) fun _ g1 hI1 h1 => Ok.pure hI1 h1
+
+/-- every operation, from every invariant state: invariant afterwards — whether it completed or was aborted — and
+    nodes owned by other frames (leaked by earlier unwinds) are left alone -/
+theorem composite_op_spec (op : COp κ ν) : Holds op.run (fun _ => True) (fun g _ g' => Std g g') := by
+  cases op with
+  | slruPut k v => exact voided (Slru.put_spec k v)
+  | slruGet k => exact voided (Slru.get_spec k)
+  | slruPutProtected k v => exact voided (Slru.putProtected_spec k v)
+  | slruRemove k => exact voided (Slru.remove_spec k)
+  | slruPurge => exact Slru.purge_spec
+  | twoqPut q k v => exact voided (TwoQ.put_spec q k v)
+  | twoqGet k => exact voided (TwoQ.get_spec k)
+  | twoqRemove k => exact voided (TwoQ.remove_spec k)
+  | twoqPurge => exact TwoQ.purge_spec
+  | arcPut size k v => exact voided (Arc.put_spec size k v)
+  | arcGet k => exact voided (Arc.get_spec k)
+  | arcRemove k => exact voided (Arc.remove_spec k)
+  | arcPurge => exact Arc.purge_spec
+  | rawPut c k v => exact voided (rawPut_spec c k v)
+  | rawGet c k => exact voided (rawGet_spec c k)
+  | rawRemove c k => exact voided (rawRemove_spec c k)
+  | rawRemoveLru c => exact voided (rawRemoveLru_spec c)
+  | rawPurge c => exact rawPurge_spec c
+  | lookup c k =>
+    exact voided (Holds.conseq (mapGet_spec c k) (fun _ _ _ => trivial)
+      (fun _ _ _ _ _ _ h => ⟨Keeps.of_pool h.1, h.2.2.1⟩))
+
+/-- the operation with the panic injected at the `t`-th call into user code (large `t`: it completes) -/
+def COp.runAt (op : COp κ ν) (t : Nat) (g : G κ ν) : G κ ν := (op.run { g with ticks := t }).2
+
+/-- a freshly built cache: no nodes, empty indexes, every list with a positive capacity -/
+def emptyG (cap : Nat → Nat) : G κ ν :=
+  { pool := [], idx := fun _ => [], cap := cap, next := 0, ticks := 0, fault := false }
+
+theorem emptyG_inv (cap : Nat → Nat) (hc : ∀ c, 0 < cap c) : Inv (emptyG cap : G κ ν) :=
+  ⟨by simp [emptyG], by simp [emptyG], by simp [emptyG], by simp [emptyG], hc, rfl⟩
+
+
+
+theorem runAt_inv (op : COp κ ν) (t : Nat) (g : G κ ν) (h : Inv g) : Inv (op.runAt t g) := by
+  have h' : Inv { g with ticks := t } := h.of_same rfl rfl rfl rfl rfl
+  exact ((composite_op_spec op).ok h' trivial).1
+
+theorem history_inv (ops : List (COp κ ν × Nat)) (g : G κ ν) (h : Inv g) :
+    Inv (ops.foldl (fun g o => o.1.runAt o.2 g) g) := by
+  induction ops generalizing g with
+  | nil => exact h
+  | cons o os ih => exact ih _ (runAt_inv o.1 o.2 g h)
+
 end M.AG
